@@ -77,4 +77,25 @@ for ap, aq, cp, cq in itertools.product(VALS, repeat=4):
                                  "want": {k: (None if v is ABS else v) for k, v in exp.items()}})
             if len(samples) < 3 and A and C and K:
                 samples.append({"A": A, "C": C, "K": K, "branches": branches})
-done(cases, nontrivial, failures, "keys p,q; values absent/1/2/[1]/[1,2]/[3]/[1,1]; reducer none|sum|collect on p; 0-2 branches, each SUCCEEDED / FAILED_CONTINUE / STOPPED / SKIPPED", samples)
+# ---- "the same result whatever order the branches FINISHED in": the same three branches (same rows, same row order) with every
+# assignment of finish times; values whose sum depends on the order of addition (0.1 + 0.2 + 0.3), so that feeding the reducer in
+# finish order shows
+for name, vals in (("sum", (0.1, 0.2, 0.3)), ("sum", (1, 2, 3)), ("max", (0.1, 0.3, 0.2)), ("min", (3, 1, 2))):
+    seen = {}
+    for times in itertools.permutations((1000, 2000, 3000)):
+        repo = MagicMock()
+        repo.get_merged_ancestor_outputs.return_value = {}
+        repo.get_upstream_stages.return_value = [StageExecution(ref_id=f"u{i}", type="t", name="u", outputs={"p": v}, status=WorkflowStatus.SUCCEEDED,
+                                                                start_time=1, end_time=t) for i, (v, t) in enumerate(zip(vals, times))]
+        h = StartStageHandler(queue=MagicMock(), repository=repo)
+        stage = StageExecution(ref_id="s", type="t", name="s", context={}, output_reducers={"p": name},
+                               tasks=[TaskExecution.create(name="t", implementing_class="x", stage_start=True, stage_end=True)])
+        wf2 = Workflow.create(application="a", name="w", stages=[stage])  # (kept alive: the stage holds a weak reference)
+        h._plan_stage(stage)
+        cases += 1
+        nontrivial += 1
+        seen[times] = stage.context.get("p")
+    if len(set(map(repr, seen.values()))) != 1:
+        failures.append({"reducer": name, "branch_values": vals, "why": "the result depends on the order the branches finished in",
+                         "by_finish_times": {str(k): v for k, v in seen.items()}})
+done(cases, nontrivial, failures, "keys p,q; values absent/1/2/[1]/[1,2]/[3]/[1,1]; reducer none|sum|collect on p; 0-2 branches, each SUCCEEDED / FAILED_CONTINUE / STOPPED / SKIPPED; 3 branches x every finish order for sum / max / min", samples)
